@@ -45,15 +45,20 @@ Applies(ty, cls) ==
       [] cls = "other_kind" -> ty \in {"bool", "int"}
       [] OTHER -> TRUE
 
+\* how the column says whether it takes NULL: nothing, NOT NULL, or PRIMARY KEY (which implies NOT NULL)
+Decls == {"nullable", "not_null", "primary_key"}
+Nullable(decl) == decl = "nullable"
+DeclApplies(ty, decl) == decl = "primary_key" => ty \in {"smallint", "int", "bigint"}
+
 VARIABLE done
 Init == done = FALSE
 Next == /\ ~done
-        /\ \A ty \in Types, cls \in Classes, nn \in BOOLEAN, f \in Forms, knull \in BOOLEAN :
-              (/\ Applies(ty, cls)
+        /\ \A ty \in Types, cls \in Classes, decl \in Decls, f \in Forms, knull \in BOOLEAN :
+              (/\ Applies(ty, cls) /\ DeclApplies(ty, decl)
                /\ ~(f = "subset" /\ cls # "null")
                /\ (knull => f \in KForms)) =>
-                 PrintT(<<"CASE", ToJson([ty |-> ty, cls |-> cls, nullable |-> nn, form |-> f,
-                                           knull |-> knull, allowed |-> Allowed(cls, nn)])>>)
+                 PrintT(<<"CASE", ToJson([ty |-> ty, cls |-> cls, nullable |-> Nullable(decl), decl |-> decl, form |-> f,
+                                           knull |-> knull, allowed |-> Allowed(cls, Nullable(decl))])>>)
         /\ done' = TRUE
 Spec == Init /\ [][Next]_done
 ==============================================================================
